@@ -50,8 +50,12 @@ func main() {
 		}
 		iw := &worker{argv: []string{self, "implworker"}, timeout: 20 * time.Second}
 		mw := &worker{argv: modelArgv(*model), timeout: 60 * time.Second}
+		mreq := req
+		if m, _ := doc["model_request"].(string); m != "" {
+			mreq = m
+		}
 		impl := ParseResp(iw.ask(req))
-		mod := ParseResp(mw.ask(req))
+		mod := ParseResp(mw.ask(mreq))
 		iw.stop()
 		mw.stop()
 		fmt.Println("request:       ", short(req))
